@@ -130,3 +130,41 @@ PROPS["C05"] = {
             thorough={"cases": 20000, "size": 200, "shards": 16}),
     ],
 }
+
+PROPS["C17"] = {
+    "level": "exploration",
+    "technique": "stateful property-based testing (rapidcheck) + bounded exhaustive enumeration: pending-reassembly table (hook) vs reference reassembler after every frame",
+    "rule": "cases = frame histories over up to 4 endpoints from the alphabet {unsegmented, first, matching/mismatching/orphan "
+            "continuation, invalid message, TECMP, short buffer, header-only}: exhaustively all sequences up to length 3 (thorough 4) "
+            "over 22 symbols on two endpoints, random histories up to 60 (thorough 200) frames, long procedural runs (30k / 250k "
+            "frames, 6 or 600 endpoints); every history is followed by closing traffic; non-trivial when an abort / supersede / "
+            "orphan / completion happens while another endpoint is pending; distinct = distinct serialized histories",
+    "assumptions": COMMON_ASSUMPTIONS + ["Decoder::verifPending() (guarded hook) reports the real table",
+                                         "after an 8-byte header-only frame that endpoint's membership is not asserted until its next frame "
+                                         "with a message (the statement is silent); the byte bound is still checked"],
+    "level_text": "Model-based search over frame histories, exhaustive up to a stated bound: after every decode call the set of "
+                  "pending endpoints equals the reference model's open set, buffered bytes never exceed the received segment bytes, "
+                  "and closing traffic leaves the table empty.",
+    "level_note": "Needs the read-only hook Decoder::verifPending(); trusted: reference reassembler.",
+    "stages": [
+        pbt("bounded_exhaustive", "pbt_C17", mode="enum", quick={}, thorough={"timeout": 7200}),
+        pbt("random_histories", "pbt_C17", quick={"cases": 1500, "size": 100, "shards": 4},
+            thorough={"cases": 10000, "size": 200, "shards": 16}),
+    ],
+}
+
+PROPS["C18"] = {
+    "level": "exploration",
+    "technique": "metamorphic property-based testing (rapidcheck): full frame history vs its projection onto each endpoint on a fresh decoder",
+    "rule": "cases = generated histories of up to 50 (thorough 120) frames over 2..4 endpoints incl. raw garbage, mixed frames, TECMP, "
+            "short buffers, header-only frames; non-trivial when >=2 endpoints occur and a reassembled message is delivered whose "
+            "segments were separated by foreign frames (other endpoints, TECMP, short buffers); distinct = distinct serialized histories",
+    "assumptions": COMMON_ASSUMPTIONS + ["the oracle is the library itself on the projected input, so the check demands determinism + isolation only"],
+    "level_text": "Metamorphic generated-input search: per endpoint, the packets delivered inside the full history must equal, frame by "
+                  "frame, those delivered when only that endpoint's frames are fed to a fresh decoder; every packet carries its frame's ids.",
+    "level_note": "No reference model; relation stated by the property.",
+    "stages": [
+        pbt("projection", "pbt_C18", quick={"cases": 1500, "size": 100, "shards": 4},
+            thorough={"cases": 20000, "size": 200, "shards": 16}),
+    ],
+}
